@@ -708,5 +708,5 @@ func main() {
 			os.RemoveAll(baseDir)
 		}
 	}()
-	lib.Main(lib.Harness[Input]{Prop: "C02", Quick: 140, Thorough: 6400, Gen: gen, Run: run})
+	lib.Main(lib.Harness[Input]{Prop: "C02", Quick: 140, Thorough: 4800, Gen: gen, Run: run})
 }
